@@ -92,7 +92,17 @@ Kinds == <<
 
 Positions == {"prop", "type"}
 
-Init == \E k \in DOMAIN Kinds, p \in Positions : c = [k |-> Kinds[k], pos |-> p]
+(* every recognised integer format with a default at, just above and just below its range *)
+FmtNames == <<"int8", "uint8", "int16", "uint16", "int", "int32", "uint", "uint32", "int64", "uint64">>
+FmtS(f) == [type |-> "integer", format |-> f]
+FmtKindsOf(f) ==
+    LET ty == IntFormatType(f) mx == TMax(ty) mn == TMin(ty) IN
+    << K("fmt-" \o f \o "-max", FmtS(f), JBig(mx), NoDefs), K("fmt-" \o f \o "-min", FmtS(f), JBig(mn), NoDefs) >>
+    \o (IF ty = "u64" THEN << >> ELSE << K("fmt-" \o f \o "-over", FmtS(f), JBig([a |-> mx.a, o |-> mx.o + 1]), NoDefs) >>)
+    \o (IF ty = "i64" THEN << >> ELSE << K("fmt-" \o f \o "-under", FmtS(f), JBig([a |-> mn.a, o |-> mn.o - 1]), NoDefs) >>)
+AllKinds == Kinds \o Flat([i \in DOMAIN FmtNames |-> FmtKindsOf(FmtNames[i])])
+
+Init == \E k \in DOMAIN AllKinds, p \in Positions : c = [k |-> AllKinds[k], pos |-> p]
 Next == UNCHANGED c
 Spec == Init /\ [][Next]_c
 
